@@ -1,11 +1,31 @@
 import H5V.Proto
 import H5V.Model.BufferQueueDriver
+import H5V.Model.Utf8Driver
+import H5V.Model.MetaDriver
+import H5V.Model.HtmlSerDriver
+import H5V.Model.XmlSerDriver
+import H5V.Model.XmlTBDriver
+import H5V.Model.TendrilDriver
+import H5V.Model.DomDriver
+import H5V.Model.HtmlTokDriver
+import H5V.Model.HtmlTBDriver
+import H5V.Model.XmlTokDriver
 /- Model driver: reads one case per line (`engine<TAB>field<TAB>…`) on stdin, writes one result line. -/
 open H5V
 
 def dispatch (line : String) : String :=
   match line.splitOn "\t" with
   | "bq" :: fields => Model.BQ.runCase fields
+  | "utf8" :: fields => Model.Utf8Driver.runCase fields
+  | "meta" :: fields => Model.MetaDriver.runCase fields
+  | "ser" :: fields => Model.HtmlSerDriver.runCase fields
+  | "xmlser" :: fields => Model.XmlSerDriver.runCase fields
+  | "xmltb" :: fields => Model.XmlTBDriver.runCase fields
+  | "tendril" :: fields => Model.TendrilDriver.runCase fields
+  | "rcdom" :: fields => Model.DomDriver.runCase fields
+  | "tok" :: fields => Model.HtmlTokDriver.runCase fields
+  | "tb" :: fields => Model.HtmlTBDriver.runCase fields
+  | "xmltok" :: fields => Model.XmlTokDriver.runCase fields
   | _ => "bad-engine"
 
 partial def loop (h : IO.FS.Stream) (out : IO.FS.Stream) : IO Unit := do
